@@ -31,85 +31,85 @@ From Coq Require Import Permutation.
 (* scanning ANY byte string as a pattern, well-formed or not, at any offset, never reads beyond the terminator *)
 Theorem C17_scanning_never_reads_past_the_end :
   (forall (p : list nat) (i : nat), lex_at p i <> TokOver) /\ (forall (p : list nat) (i l0 : nat), i <= length p -> match_escaped p i l0 <> LOver) /\ (forall (p : list nat) (i : nat), i <= length p -> match_range_item p i <> LOver) /\ (forall (p : list nat) (f i len : nat), i <= length p -> range_items p f i len <> LOver) /\ (forall (p : list nat) (i : nat), i <= length p -> match_range p i <> LOver) /\ (forall (p : list nat) (i : nat), i <= length p -> match_primary p i <> LOver) /\ (forall (p : list nat) (f i len : nat), i <= length p -> S (length p) <= f -> range_items p f i len = range_items p (S (length p)) i len).
-Proof. exact no_over_read. Qed.
+Proof. exact @no_over_read. Qed.
 Print Assumptions C17_scanning_never_reads_past_the_end.
 
 (* every token the scanner delivers is non-empty, lies inside the pattern and is one of the ten pattern terms *)
 Theorem C17_tokens_in_range :
   forall (p : list nat) (i t len : nat), lex_at p i = Tok t len -> 0 < len /\ i + len <= length p /\ t < 10.
-Proof. exact lex_at_in_range. Qed.
+Proof. exact @lex_at_in_range. Qed.
 Print Assumptions C17_tokens_in_range.
 
 (* parsing any string as a pattern never performs an out-of-range access *)
 Theorem C17_pattern_parse_never_crashes :
   forall (g : grammar) (tb : LRGen.table) (pat : list nat) (fuel : nat) (cr : crash), regex_grammar_table = Some (g, tb) -> pattern_run g tb pat fuel <> Crash cr.
-Proof. exact pattern_parse_no_crash. Qed.
+Proof. exact @pattern_parse_no_crash. Qed.
 Print Assumptions C17_pattern_parse_never_crashes.
 
 (* if a pattern gets a meaning then the whole string was scanned into tokens and the token string is derivable in the pattern grammar: nothing outside the syntax is given a meaning *)
 Theorem C17_only_wellformed_patterns_get_a_meaning :
   forall (pat : list nat) (r : regex), parse_pattern pat = Some r -> exists toks : list (nat * nat * nat), (forall F : nat, length pat < F -> tokenize F regex_opts regex_lexer pat 0 = (toks, TokEof (length pat))) /\ derives regex_g (map tok_term toks).
-Proof. exact parse_pattern_wellformed. Qed.
+Proof. exact @parse_pattern_wellformed. Qed.
 Print Assumptions C17_only_wellformed_patterns_get_a_meaning.
 
 (* a raw non-printable byte anywhere (in a set, after a backslash, bytes >= 0x80) makes the pattern invalid *)
 Theorem C17_raw_nonprintable_byte_rejected :
   forall (pat : list nat) (c : nat), In c pat -> is_printable c = false -> parse_pattern pat = None.
-Proof. exact nonprintable_rejected. Qed.
+Proof. exact @nonprintable_rejected. Qed.
 Print Assumptions C17_raw_nonprintable_byte_rejected.
 
 (* the empty pattern is invalid *)
 Theorem C17_empty_pattern_rejected :
   parse_pattern [] = None.
-Proof. exact empty_pattern_rejected. Qed.
+Proof. exact @empty_pattern_rejected. Qed.
 Print Assumptions C17_empty_pattern_rejected.
 
 (* an unterminated set is invalid *)
 Theorem C17_unterminated_set_rejected :
   forall pre rest : list nat, (forall c : nat, In c pre -> c <> 92 /\ c <> 91) -> ~ In 93 rest -> parse_pattern (pre ++ 91 :: rest) = None.
-Proof. exact unterminated_set_rejected. Qed.
+Proof. exact @unterminated_set_rejected. Qed.
 Print Assumptions C17_unterminated_set_rejected.
 
 (* the set decoder re-scans exactly the lexeme the scanner delivered and reads nothing outside it *)
 Theorem C17_decoder_stays_inside_the_lexeme :
   forall (p : list nat) (i len : nat), lex_at p i = Tok 1 len -> string_view_to_subset_c (lexeme p i len) = Some (string_view_to_subset (lexeme p i len)).
-Proof. exact decoder_in_range. Qed.
+Proof. exact @decoder_in_range. Qed.
 Print Assumptions C17_decoder_stays_inside_the_lexeme.
 
 (* EXACTLY the documented syntax: a byte string gets a meaning iff it scans completely into tokens whose string is derivable in the pattern grammar (and every {n} count is below the model's bound 4096) *)
 Theorem C17_pattern_accepted_iff_in_the_syntax :
   forall p : list nat, parse_pattern p <> None <-> (exists toks : list (nat * nat * nat), scans p toks /\ derives regex_g (map tok_term toks) /\ counts_ok p toks = true).
-Proof. exact pattern_accepted_iff. Qed.
+Proof. exact @pattern_accepted_iff. Qed.
 Print Assumptions C17_pattern_accepted_iff_in_the_syntax.
 
 (* with the fixed fuel 10*length+20 the pattern parser accepts exactly the derivable token strings and rejects exactly the others: a rejection is never an out-of-fuel artefact *)
 Theorem C17_pattern_syntax_decided :
   forall p : list nat, ((exists v : rval, the_run p = Accept v) <-> (exists toks : list (nat * nat * nat), scans p toks /\ derives regex_g (map tok_term toks))) /\ (the_run p = Reject <-> ~ (exists toks : list (nat * nat * nat), scans p toks /\ derives regex_g (map tok_term toks))).
-Proof. exact pattern_syntax_decided. Qed.
+Proof. exact @pattern_syntax_decided. Qed.
 Print Assumptions C17_pattern_syntax_decided.
 
 (* the pattern parser terminates on every byte string (potential argument checked cell by cell on the pattern table) *)
 Theorem C17_pattern_parse_terminates :
   forall (p : list nat) (fuel : nat), 7 * length p + 8 <= fuel -> pattern_run regex_g regex_tb p fuel <> OutOfFuel.
-Proof. exact pattern_parse_terminates. Qed.
+Proof. exact @pattern_parse_terminates. Qed.
 Print Assumptions C17_pattern_parse_terminates.
 
 (* the pattern grammar is ambiguous (alt -> alt | alt); its table is the LR(1) automaton with that conflict resolved to shift *)
 Theorem C17_pattern_table_resolved :
   validate_resolved regex_g regex_sts regex_tb = true.
-Proof. exact regex_table_validated_resolved. Qed.
+Proof. exact @regex_table_validated_resolved. Qed.
 Print Assumptions C17_pattern_table_resolved.
 
 (* the side condition is needed in the MODEL: a{4096} is refused by the mirror's count functor (the real library has no such bound; counts that large are not exercised) *)
 Theorem C17_count_bound_of_the_model_refuted :
   exists (p : list nat) (toks : list (nat * nat * nat)), scans p toks /\ derives regex_g (map tok_term toks) /\ parse_pattern p = None.
-Proof. exact wellformed_pattern_accepted_refuted. Qed.
+Proof. exact @wellformed_pattern_accepted_refuted. Qed.
 Print Assumptions C17_count_bound_of_the_model_refuted.
 
 (* a rule mentioning a nonterminal or term that is not declared makes rule analysis fail ('string not found') *)
 Theorem C17_undeclared_symbol_rejected :
   forall (rg : raw_grammar) (r : raw_rule) (s : raw_sym), In r (rg_rules rg) -> In s (rr_r r) -> match s with | RTerm id => ~ In id (map rt_id (rg_terms rg) ++ [id_eof; id_error]) | RNterm n => ~ In n (rg_nterms rg ++ [id_fake_root]) end -> analyze rg = None.
-Proof. exact find_str_none_analyze_none. Qed.
+Proof. exact @find_str_none_analyze_none. Qed.
 Print Assumptions C17_undeclared_symbol_rejected.
 
 (* ---- namespace stdex / utils below the model (appended by tools/append_props.py) *)
@@ -121,15 +121,23 @@ Require Import Ctpg.Proofs.ContainersBits.
 Require Import Ctpg.Proofs.ContainersVec.
 Require Import Ctpg.Proofs.ContainersSort.
 Require Import Ctpg.Proofs.UtilsCorrect.
+Require Import Ctpg.Model.RegexFront.
+Require Import Ctpg.Proofs.UtilsRegexLink.
 
 (* utils::is_printable on signed chars: exactly 0x20..0x7e - bytes >= 0x80 are negative chars and are refused as raw pattern bytes *)
 Theorem C17_printable_class :
-  forall b : nat, b < 256 -> is_printable b = (32 <=? b) && (b <=? 126).
+  forall b : nat, b < 256 -> Utils.is_printable b = (32 <=? b) && (b <=? 126).
 Proof. exact @is_printable_spec. Qed.
 Print Assumptions C17_printable_class.
 
+(* LINK (pattern front end): the classes the model's regex_lexer uses (unsigned comparisons on 0..255) are the signed-char classes of utils:: on every byte *)
+Theorem C17_front_end_classes_are_the_signed_char_classes :
+  forall b : nat, b < 256 -> is_printable b = Utils.is_printable b /\ is_dec_digit b = Utils.is_dec_digit b /\ is_hex_digit b = Utils.is_hex_digit b.
+Proof. exact @front_end_classes_are_the_signed_char_classes. Qed.
+Print Assumptions C17_front_end_classes_are_the_signed_char_classes.
+
 (* bytes 128..255 are neither printable nor digits *)
 Theorem C17_high_bytes_belong_to_no_class :
-  forall b : nat, 128 <= b -> b < 256 -> is_printable b = false /\ is_dec_digit b = false /\ is_hex_digit b = false.
+  forall b : nat, 128 <= b -> b < 256 -> Utils.is_printable b = false /\ Utils.is_dec_digit b = false /\ Utils.is_hex_digit b = false.
 Proof. exact @high_bytes_no_class. Qed.
 Print Assumptions C17_high_bytes_belong_to_no_class.
